@@ -31,7 +31,23 @@ for n, f in [("band_update", "band_update_stats"), ("band_choose", "band_choose_
 HARNESS["band_dohello"]["replace"] = ["band_choose_hello_time"]
 H("c13_monotone", src="h_band.c", props=["C13"], unwind=4, port_model=True, no_native=False)
 
+# ---------------------------------------------------------------- C14 / C15 / C18 constructors and steps
+_US = {"switch_state_mapping.0": 130, "switch_state_session.0": 130, "switch_state_enumeration.0": 130,
+       "v_autom_closed.0": 130, "v_autom_step_rel.0": 130}
+H("ctor_mapping", src="h_autom.c", props=["C18", "C19"], enforce=["init_automata_mapping"], unwindset=_US,
+  must_reach=["end", "ok", "null"], safety_props=["C18"], unwind=8)
+H("ctor_enum", src="h_autom.c", props=["C18", "C19"], enforce=["init_automata_enumeration"], unwindset=_US,
+  must_reach=["end", "ok", "null"], safety_props=["C18"], unwind=8)
+H("ctor_session", src="h_autom.c", props=["C18", "C19"], enforce=["init_automata_session"], unwindset=_US,
+  must_reach=["end", "ok", "null"], safety_props=["C18"], unwind=8)
+H("map_step", src="h_autom.c", props=["C14"], enforce_rec=["switch_state_mapping"], unwindset=_US, unwind=8)
+H("sess_step", src="h_autom.c", props=["C15"], enforce_rec=["switch_state_session"], unwindset=_US, unwind=8)
+H("enum_step", src="h_autom.c", props=["C12"], enforce=["switch_state_enumeration"], unwindset=_US, unwind=8)
+
 PROPS = {
+    "C14": {"harnesses": ["map_step"]},
+    "C15": {"harnesses": ["sess_step"]},
+    "C18": {"harnesses": ["ctor_mapping", "ctor_enum", "ctor_session"]},
     "C13": {
         "harnesses": ["band_update", "band_choose", "band_dohello", "band_heard", "band_init", "c13_monotone"],
         "explanation": "band_* functions enforced against contracts whose postconditions are the closed forms of "
